@@ -141,6 +141,13 @@ pub fn exec(tok: &[&str]) -> String {
         "keygen_digest" => crate::keys::op_digest(tok[1].parse().unwrap(), &unhex(tok[2])),
         "sk_fields" => crate::c04::op_sk_fields(tok[1].parse().unwrap(), &parse_ints::<i64>(tok[2]), &parse_ints::<i64>(tok[3]), &parse_ints::<i64>(tok[4])),
         // ---- the tower of NTRUSolve (C04) ---------------------------------------------------------------
+        "ntru_base" => {
+            let (a, b): (num::BigInt, num::BigInt) = (tok[1].parse().unwrap(), tok[2].parse().unwrap());
+            match vh::ntru_solve(&[a], &[b]) {
+                None => "none".to_string(),
+                Some((cf, cg)) => format!("{} {}", cf[0], cg[0]),
+            }
+        }
         "field_norm" => {
             let f = parse_ints::<i64>(tok[1]);
             ints(&pad(vh::field_norm_i64(&f), f.len() / 2))
